@@ -411,6 +411,11 @@ def predicates(ctx: Ctx) -> None:
 
 def replay(ctx: Ctx, data: dict) -> bool:
     r = None
+    if "bond_sequence_seed" in data:
+        r = bh.bond_sequence_predicate(int(data["bond_sequence_seed"]))
+        if r:
+            print(f"  {r[0]}: {r[1]}")
+        return r is None
     if "bond_oracle" in data:
         r = bh.bond_oracle_predicate(data["bond_oracle"]["pts"], data["bond_oracle"]["cutoff"])
         if r:
